@@ -19,7 +19,7 @@ def t2(kernel, wmax, hmax, timeout=1500, solver="cadical", wmin=1):
     nm = {1: "im_fill_rand", 2: "bin2", 3: "bin_cascade", 4: "get_frame"}[kernel]
     return H("loops_%s_w%d-%d_h%d" % (nm, wmin, wmax, hmax), "harness/simcam/tier2.c", repo=[COMP], env=ENV,
              defines=["KERNEL=%d" % kernel, "WMAX=%d" % wmax, "HMAX=%d" % hmax, "WMIN=%d" % wmin], cflags=["-mavx2"],
-             unwind=max(wmax * hmax // 32 + 6, hmax + 2, 12), unwindset={"im_fill_rand.0": wmax * hmax + 12, "main.0": max(wmax - wmin, hmax) + 3, "main.1": max(wmax - wmin, hmax) + 3, "main.2": max(wmax - wmin, hmax) + 3, "one_shape.0": 6}, solver=solver, timeout=timeout, mem_gb=28, est_gb=(18 if kernel in (2, 3) else (8 if kernel == 4 else 1)), nobody_ok=[r"__builtin_ia32_"],
+             unwind=max(wmax * hmax // 32 + 6, hmax + 2, 12), unwindset={"im_fill_rand.0": wmax * hmax + 12, "main.0": max(wmax - wmin, hmax) + 3, "main.1": max(wmax - wmin, hmax) + 3, "main.2": max(wmax - wmin, hmax) + 3, "one_shape.0": 6}, solver=solver, timeout=timeout, mem_gb=28, est_gb=(18 if kernel in (2, 3) else ((8 if wmax <= 16 else 18) if kernel == 4 else 1)), nobody_ok=[r"__builtin_ia32_"],
              what="real %s on an end-anchored arena (buffer = last E bytes of a fixed object, E = extent assumed by tier 1): every load/store inside for all shapes up to %d x %d" % (nm, wmax, hmax),
              bounds=dict(width="1..%d" % wmax, height="1..%d" % hmax))
 
@@ -31,13 +31,13 @@ def harnesses(tier, findings):
         return [t2(2, 64, 8, 1500, wmin=41), t2(2, 84, 8, 1500, wmin=65), t2(3, 52, 8, 1500, wmin=41), t2(3, 64, 8, 1500, wmin=53)]
     if tier == "quick":
         return [t1(1), reconf(), t2(1, 16, 4, 600), t2(4, 16, 4, 600), t2(2, 64, 6, 600), t2(3, 40, 8, 600)]
-    return [t1(1), reconf(3000), t2(1, 32, 8, 3000), t2(4, 32, 8, 3000)] + [t2(2, hi, 8, 3000, wmin=lo) for lo, hi in ((1, 40), (41, 64), (65, 84), (85, 100))] + \
+    return [t1(1), reconf(3000), t2(1, 32, 8, 3000), t2(4, 16, 4, 3000), t2(4, 24, 4, 3000, wmin=17)] + [t2(2, hi, 8, 3000, wmin=lo) for lo, hi in ((1, 40), (41, 64), (65, 84), (85, 100))] + \
            [t2(3, hi, 8, 3000, wmin=lo) for lo, hi in ((1, 28), (29, 40), (41, 52), (53, 64))]
 
 META = dict(
     level="model_checking",
     bounds=dict(quick="tier 1: one set from the initial camera state and one re-configuration step from an arbitrary earlier configuration, full 32-bit shape/offset range, all binnings and types; tier 2: im_fill_rand for all shapes <= 16x4 and types (symbolic), AVX2 bin2 and the binning cascade (2,4,8) for every shape <= 64 x 6/8 (enumerated, see harness)",
-                thorough="tier 2 boxes: im_fill_rand 32x8, bin2 widths 1..100 x heights 1..8, cascade widths 1..64 x heights 1..8 (in width slices of about 10 GB each)"),
+                thorough="tier 2 boxes: im_fill_rand 32x8, get_frame widths 1..24 x heights 1..4 (two slices; 24x6 and 32x8 exhaust 28 GB), bin2 widths 1..100 x heights 1..8, cascade widths 1..64 x heights 1..8 (in width slices of about 10 GB each)"),
     outside="ALIGNMENT of the AVX2 vector accesses (CBMC has no alignment model: the 32-byte aligned moves on realloc memory repaired by 6395a31 were not, and would not be, found by this check); re-configuration while the streamer thread is running (buffers are reallocated under it); allocation failure",
     assumptions=["popcount_u8 (C++ std::popcount) replaced by a C bit-count model", "realloc stub records the requested size; lock model of env/plat_seq.c",
                  "pattern renderers (C++, imfill.pattern.cpp) are stubbed: their extent is not decided (their loops write width*height elements through the strides of the full-resolution shape)",
